@@ -522,6 +522,7 @@ type c10ChildResp struct {
 	NHits   int      `json:"nhits,omitempty"`
 	Afters  string   `json:"afters,omitempty"` // Coq term (list)
 	AfterY  []string `json:"aftery,omitempty"` // the same documents as YAML
+	NoEnc   string   `json:"noenc,omitempty"`  // the filter succeeded but a resulting document cannot be encoded: the encoder's error
 	Output  string   `json:"output,omitempty"` // build output yaml
 	Unrep   bool     `json:"unrep,omitempty"`  // result not representable as a Coq term
 	Timeout bool     `json:"timeout,omitempty"`
@@ -583,6 +584,12 @@ func c10Exec(req c10ChildReq) (resp c10ChildResp) {
 			return resp
 		}
 		resp.AfterY, _ = c10TextsOfNodes(out)
+		for _, n := range out {
+			if _, e := n.MarshalJSON(); e != nil { // what ResMap.AsYaml does with every resource
+				resp.NoEnc = e.Error()
+				break
+			}
+		}
 		t, ok := coqNodes(out)
 		if !ok {
 			resp.Unrep = true
@@ -861,7 +868,7 @@ var c10LabelVals = []string{"x", "x-1", "ax", "web"}
 var c10LabelSels = []string{"", "", "", "app=x", "app==x", "app!=x", "app", "!app", "app=x,tier=web", "tier=web", "x", "app=ax", "app = x", "app in (x)", "app=x,"}
 
 func c10PickN(r *Rng, l []string) string { return l[r.Intn(len(l))] }
-func c10PickInt(r *Rng, l []int) int      { return l[r.Intn(len(l))] }
+func c10PickInt(r *Rng, l []int) int     { return l[r.Intn(len(l))] }
 
 // ---------- resource generator (block YAML text) ----------
 
@@ -1985,6 +1992,7 @@ func c10EmitRepl(run *Run, c c10Case, resp c10ChildResp) {
 	orig, ok := coqNodes(nodes)
 	run.Count("repl", resp.Cls)
 	c10Report(run, c10LawRepl(c, resp.Cls, resp.AfterY), c)
+	c10Report(run, c10LawReplEncodable(c, resp.NoEnc), c)
 	if resp.Cls == ClsErr {
 		m := resp.Msg
 		for _, k := range []string{"multiple matches", "nothing selected", "is missing for", "unable to find field", "unable to find or create", "delimiter option", "out of bounds", "must specify", "mutually exclusive", "error looking up", "wrong node kind", "selector", "previous"} {
